@@ -1,4 +1,4 @@
-"""C12 -- closing and reopening a project loses nothing (writer/reader agreement R12.1-R12.14)."""
+"""C12 -- closing and reopening a project loses nothing (writer/reader agreement R12.1-R12.15)."""
 from __future__ import annotations
 
 import ast
@@ -142,6 +142,7 @@ def check(ctx, res) -> None:
     history_order_rule(ctx, res, "R12.12")
     _resource_kind_rule(ctx, res)
     _kind_is_saved_rule(ctx, res)
+    _undo_state_is_saved_rule(ctx, res)
 
 
 def _resource_kind_rule(ctx, res) -> None:
@@ -164,11 +165,14 @@ def _resource_kind_rule(ctx, res) -> None:
             if nd.kind != "stmt" or nd.ast is None:
                 continue
             for c in calls_in(nd.ast):
-                if call_name(c) in ("get_folder", "get_file"):
-                    used = isinstance(nd.ast, (ast.Assign, ast.Return, ast.AnnAssign)) or any(
-                        isinstance(p_, ast.Call) and c in p_.args for p_ in ast.walk(nd.ast))
-                    pols = {pol for t, pol in cfg.guards(nd.id) if isinstance(t, ast.Name) and t.id == flag}
-                    kinds.setdefault(call_name(c), []).append((used, pols, nd))
+                for cn, cond, side in common.callee_names(node, c):  # (the getter may be picked by a conditional expression)
+                    if cn in ("get_folder", "get_file"):
+                        used = isinstance(nd.ast, (ast.Assign, ast.Return, ast.AnnAssign)) or any(
+                            isinstance(p_, ast.Call) and c in p_.args for p_ in ast.walk(nd.ast))
+                        pols = {pol for t, pol in cfg.guards(nd.id) if isinstance(t, ast.Name) and t.id == flag}
+                        if isinstance(cond, ast.Name) and cond.id == flag:
+                            pols = pols | {side}
+                        kinds.setdefault(cn, []).append((used, pols, nd))
         bad = None
         for getter, want in (("get_folder", True), ("get_file", False)):
             uses = [(u, pols, nd) for u, pols, nd in kinds.get(getter, [])]
@@ -228,7 +232,8 @@ def _check_main(ctx, res) -> None:
                      f"change kind {k} has no {'writer ' + wp + k if not wm else 'reader ' + rp + k}: "
                      "a history containing it cannot be " + ("saved" if not wm else "reloaded"))
             continue
-        rets = [n for n in walk_local(wm.node) if isinstance(n, ast.Return)]
+        wnode = common.inlined(idx, wm)  # (`return _helper(change)` with a one-line helper reads like the tuple it returns)
+        rets = [n for n in walk_local(wnode) if isinstance(n, ast.Return)]
         if len(rets) != 1 or not isinstance(rets[0].value, ast.Tuple):
             res.undecided("R12.1", f"{k}|arity", wm.where, "writer does not return a single tuple literal")
             continue
@@ -291,8 +296,12 @@ def _check_main(ctx, res) -> None:
                 table = _param_to_attrs(idx, q).get("__init__", {})
                 init = idx.find_method(q, "__init__")
                 iparams = param_names(init.node)[1:] if init else []
+                ctl_ps = set()
+                for st_ in walk_local(rm.node):  # `if flag: return K(a) else: return K(b)`: the flag decides what the argument is
+                    if isinstance(st_, (ast.If, ast.IfExp)) and any(y is c for part in ([st_.body, st_.orelse] if isinstance(st_, ast.IfExp) else st_.body + st_.orelse) for y in ast.walk(part)):
+                        ctl_ps |= lab(st_.test)
                 for j, arg in enumerate(c.args):
-                    for p in lab(arg):
+                    for p in lab(arg) | ctl_ps:
                         p2a[p] |= table.get(j, set())
                 for kw in c.keywords:
                     if kw.arg in iparams:
@@ -303,6 +312,12 @@ def _check_main(ctx, res) -> None:
                 for j, arg in enumerate(c.args):
                     for p in lab(arg):
                         p2a[p] |= table.get(j, set())
+        # a field the constructor does not take, set on the rebuilt object: `result._x = x`
+        for a_ in walk_local(rm.node):
+            if isinstance(a_, ast.Assign) and len(a_.targets) == 1 and isinstance(a_.targets[0], ast.Attribute) and isinstance(a_.targets[0].value, ast.Name) \
+                    and a_.targets[0].value.id != "self":
+                for p in lab(a_.value):
+                    p2a[p].add(a_.targets[0].attr)
         for i, (rs, p) in enumerate(zip(roots, ps)):
             if not rs or not p2a.get(p):
                 res.undecided("R12.1", f"{k}|field{i}", rm.where, f"flow of element {i} / parameter '{p}' not resolved")
@@ -765,7 +780,9 @@ def _kind_is_saved_rule(ctx, res) -> None:
         if not handles_folders or wm is None or rm is None:
             continue
         n += 1
-        reader_chooses = any(call_name(x) == "get_folder" for x in calls_in(common.inlined(idx, rm))) and any(call_name(x) == "get_file" for x in calls_in(common.inlined(idx, rm)))
+        rnode = common.inlined(idx, rm)
+        called = {cn for x in calls_in(rnode) for cn, _, _ in common.callee_names(rnode, x)}
+        reader_chooses = {"get_folder", "get_file"} <= called
         writer_saves = any(isinstance(x, ast.Call) and call_name(x) == "is_folder" for x in ast.walk(common.inlined(idx, wm)))
         ok = reader_chooses and writer_saves
         res.add("R12.14", f"{c.name}|kind-saved-and-restored", ok, rm.where,
@@ -775,3 +792,30 @@ def _kind_is_saved_rule(ctx, res) -> None:
                 ": after closing and reopening the project a folder move is a change of File objects -- `File('pkg')` contains nothing and equals no Folder, so a selective "
                 "undo of the move no longer takes the edits inside the folder along and leaves a tree that never existed", function=rm.qualname)
     res.floor("R12.14", "change kinds that can hold a folder", n, 1)
+
+
+def _undo_state_is_saved_rule(ctx, res) -> None:
+    """R12.15: a performed change sits in the undo list; what its `undo()` needs is partly found out by `do()` (the old
+    contents, the newline convention the file had).  After closing and reopening the project the change is rebuilt from the
+    saved tuple and `do()` is NOT run again.  Every attribute that `do()` assigns and `undo()` reads is therefore part
+    of what the writer (`ChangeToData.convert<K>`) saves."""
+    idx = ctx.idx
+    w = idx.need_class("rope.base.change.ChangeToData")
+    n = 0
+    for c in common.change_classes(idx):
+        do, undo = c.methods.get("do"), c.methods.get("undo")
+        wm = w.methods.get("convert" + c.name)
+        if do is None or undo is None or wm is None:
+            continue
+        set_by_do = {t.attr for x in walk_local(common.inlined(idx, do)) if isinstance(x, ast.Assign) for t in x.targets if is_self_attr(t)}
+        read_by_undo = {x.attr for x in ast.walk(common.inlined(idx, undo)) if is_self_attr(x) and isinstance(x.ctx, ast.Load)}
+        saved = {x.attr for x in ast.walk(common.inlined(idx, wm)) if isinstance(x, ast.Attribute)}
+        for attr in sorted(set_by_do & read_by_undo):
+            n += 1
+            ok = attr in saved
+            res.add("R12.15", f"{c.name}.{attr}|found-out-by-do-needed-by-undo-saved", ok, wm.where,
+                    f"{c.name}.{attr} is saved" if ok else
+                    f"{c.name}.do() finds out `self.{attr}` and undo() uses it, but convert{c.name} does not save it: a change reloaded from the history has the "
+                    "initial value -- e.g. a CRLF file overwritten with text that has no line break, close, reopen, undo: the old text comes back with LF line ends",
+                    function=wm.qualname)
+    res.floor("R12.15", "attributes found out by do() and needed by undo()", n, 1)
